@@ -53,6 +53,63 @@ Theorem C18_http_gate : forall cfg f reqs h s,
 Proof. exact http_gate. Qed.
 Print Assumptions C18_http_gate.
 
+(* The gate, request by request, for EVERY method and EVERY form of the request-target.  A request reaches
+   the model as net/http parsed it: method, raw target, form (origin / asterisk / absolute / authority),
+   URL.Scheme, URL.Host (possibly empty), req.Host.  One turn of dispatch's loop on ANY such request: if
+   an upstream is dialled while this request is handled, then this very request carried credentials,
+   AuthFunc was called on exactly those and accepted them, that call is the first event of the turn, and
+   no other AuthFunc call follows in it. *)
+Theorem C18_http_gate_this_request : forall cfg f r tail a,
+  hc_auth cfg = Some f ->
+  In (HTcp a) (fst (c18_http_one c18_gate_all cfg r tail)) ->
+  exists u p ev, c18_basic_creds (hr_pauth r) = Some (u, p) /\ f u p = true /\
+                 fst (c18_http_one c18_gate_all cfg r tail) = HAuth u p true :: ev /\
+                 (forall u' p' ok', ~ In (HAuth u' p' ok') ev).
+Proof. exact http_one_gate. Qed.
+Print Assumptions C18_http_gate_this_request.
+
+(* The same with every field of the request spelled out: for all methods, all request-targets, all four
+   forms, all schemes, all URL hosts and Host fields (empty ones included), all keep-alive / status /
+   framing values and whatever follows on the connection - any dial on the connection from this request
+   on implies that the auth function accepted THIS request's Proxy-Authorization. *)
+Theorem C18_http_gate_every_form : forall cfg f method uri form scheme uhost host pauth ka st fr t tail a,
+  hc_auth cfg = Some f ->
+  In (HTcp a) (c18_http_loop cfg (mkHReq method uri form scheme uhost host pauth ka st fr :: t) tail) ->
+  c18_auth_ok f pauth = true.
+Proof. exact http_gate_every_form. Qed.
+Print Assumptions C18_http_gate_every_form.
+
+(* What the forms do behind the gate.  A plain (non-CONNECT) request without a scheme - origin-form "GET /",
+   asterisk-form "OPTIONS *" - is never forwarded, with or without credentials, with or without a gate
+   (400 from handleRequest) ... *)
+Theorem C18_plain_schemeless_never_dials : forall gated cfg r tail a,
+  c18_is_connect r = false -> hr_scheme r = [] ->
+  ~ In (HTcp a) (fst (c18_http_one gated cfg r tail)).
+Proof. exact plain_no_scheme_no_dial. Qed.
+Print Assumptions C18_plain_schemeless_never_dials.
+
+(* ... but a CONNECT goes to handleConnect whatever its target is: with an empty URL.Host (origin-form
+   "CONNECT /x", an empty target, "?q") an ungated turn dials ":80".  So "URL.Host is empty" does not
+   identify requests that cannot reach an upstream; *)
+Theorem C18_connect_hostless_dials : forall gated cfg r tail,
+  c18_is_connect r = true -> hr_uhost r = [] -> gated r = false ->
+  fst (c18_http_one gated cfg r tail) = c18_handle_connect cfg r tail /\
+  c18_connect_addr r = [x3a; x38; x30] /\
+  In (HTcp [x3a; x38; x30]) (fst (c18_http_one gated cfg r tail)).
+Proof. exact connect_hostless_dials. Qed.
+Print Assumptions C18_connect_hostless_dials.
+
+(* and a dispatch that applied the credential check only to requests with a non-empty URL.Host would let
+   "CONNECT /x" without any Proxy-Authorization through to HyClient.TCP(":80"), where the code as it is
+   answers 407 (witness: a request in the shape net/http produces, c18_form_ok). *)
+Theorem C18_http_gate_hosted_only_refuted :
+  c18_form_ok ex_connect_origin = true /\ hr_pauth ex_connect_origin = None /\
+  c18_http_loop_g c18_gate_hosted ex_hcfg [ex_connect_origin] (mkPre [] [])
+    = [HTcp [x3a; x38; x30]; HReply 200; HRelay []; HClose] /\
+  c18_http_loop ex_hcfg [ex_connect_origin] (mkPre [] []) = [HReply 407; HClose].
+Proof. exact hosted_exemption_refuted. Qed.
+Print Assumptions C18_http_gate_hosted_only_refuted.
+
 (* a request whose Proxy-Authorization is missing / not "basic " (case-insensitive) / not strict base64 /
    has no ':' / is refused by AuthFunc is answered 407 and the connection is closed; later requests on
    the connection are never looked at *)
@@ -67,11 +124,11 @@ Print Assumptions C18_http_reject.
 (* CONNECT: the upstream receives exactly the bytes that followed the header block (offset h of the
    stream), in order - whichever part of them bufio had already buffered, for every chunking *)
 Theorem C18_connect_pipelining : forall cfg r t h s,
-  hr_connect r = true -> hc_dial_ok cfg = true ->
+  c18_is_connect r = true -> hc_dial_ok cfg = true ->
   (match hc_auth cfg with Some f => c18_auth_ok f (hr_pauth r) = true | None => True end) ->
   (h <= length (concat s))%nat ->
   exists aev, c18_http cfg (r :: t) h s =
-              aev ++ [HTcp (hr_addr r); HReply 200; HRelay (skipn h (concat s)); HClose] /\
+              aev ++ [HTcp (c18_connect_addr r); HReply 200; HRelay (skipn h (concat s)); HClose] /\
               Forall (fun e => match e with HAuth _ _ true => True | _ => False end) aev.
 Proof. exact connect_pipelining. Qed.
 Print Assumptions C18_connect_pipelining.
@@ -80,7 +137,7 @@ Print Assumptions C18_connect_pipelining.
    what follows, Transfer-Encoding: chunked): the declared framing changes nothing in the proxy's trace.
    (C18_connect_pipelining quantifies over r, hence over hr_framing r; this states the independence.) *)
 Theorem C18_connect_framing_irrelevant : forall cfg r fr t h s,
-  hr_connect r = true -> c18_http cfg (c18_set_framing fr r :: t) h s = c18_http cfg (r :: t) h s.
+  c18_is_connect r = true -> c18_http cfg (c18_set_framing fr r :: t) h s = c18_http cfg (r :: t) h s.
 Proof. exact connect_framing_irrelevant. Qed.
 Print Assumptions C18_connect_framing_irrelevant.
 
